@@ -18,5 +18,6 @@ def main(tier):
                     'eos_json recognises every supported EOS given explicitly, via MULTI, via the simulator string, also with an empty MULTI eos, and raises when none: PROVED on the real methods. '
                     'On the full model the real convert_to_TOUGH2 / convert_to_AUTOUGH2 leave a model that declares the target flavour, holds nothing specific to the old one, keeps grid and rock types, keeps the generators of supported types in order (CO2 -> COM2) and deletes the others from list and lookup, turns short-output blocks into history blocks and back, and survives write() -> read() -> write() over the tape file system: PROVED (3 programs). '
                     'rocks_json on the grid of a real rectangular geometry (3 atmosphere types, two rock types, one block of symbolic volume): every non-boundary block is in exactly the cell list of its own rock type under its cell index, boundary blocks in none: PROVED. '
-                    'Other section subsets, sources and boundaries of the Waiwera export: BOUNDED.',
+                    'generators_json on a real grid (3 atmosphere types / EOS names; production and injection MASS, HEAT, COM1 and a table generator with blank GX, one generator in an atmosphere block): one source per generator in order, each with the cell index of its block (None in the atmosphere), constant rates and rate / enthalpy tables carried over: PROVED (it found the blank-GX TypeError repaired in 81bacd7). '
+                    'Other section subsets, generator networks and boundaries of the Waiwera export: BOUNDED.',
         extra=[(c20b, c20b.PROGRAMS)])
